@@ -45,8 +45,7 @@ Lemma path_set_good f t chunks :
 Proof.
   intros Hg Hs. pose proof (type_git_valid t Hg) as Hv. unfold int64_size in Hs.
   destruct (m_fill_spec t (blen (concat chunks)) chunks eq_refl) as (Ht & Hh & Hc & Hsz).
-  unfold path_set. rewrite Ht, Hsz, Hc.
-  replace (otype_eqb t TOfsDelta || otype_eqb t TRefDelta) with false by (destruct t; try discriminate; reflexivity).
+  unfold path_set, path_set2. rewrite Ht, Hsz, Hc, Hg. cbn [negb].
   rewrite w_header_ok by (try assumption; lia).
   replace [concat chunks] with ([concat chunks] : list bytes) by reflexivity.
   rewrite w_writes_fit by (cbn [w_pending concat]; rewrite app_nil_r; lia).
@@ -330,3 +329,100 @@ Proof.
     rewrite read_until_app by (try assumption; lia). cbn [rev app]. rewrite Hpt.
     rewrite read_until_app by (try assumption; lia). cbn [rev app]. now rewrite Hpi.
 Qed.
+
+(* ---------- the format every write path hashes with ---------- *)
+Definition fs_inv (st : fs_state) : Prop :=
+  fs_dir st = fs_oh st /\ fs_oh st = fs_opts st /\ (fs_cfg st <> CUnset -> fs_dir st = hfmt_of (fs_cfg st)).
+
+Definition fmt_step (cur of : cfmt) : cfmt := match of with CUnset => cur | _ => of end.
+
+Lemma cfmt_eqb_eq a b : cfmt_eqb a b = true -> a = b.
+Proof. destruct a, b; cbn; congruence. Qed.
+
+Lemma fs_new_inv opt file :
+  fs_inv (fs_new opt file) /\ fs_dir (fs_new opt file) = hfmt_of (match file with Some c => c | None => opt end).
+Proof. destruct file as [c|]; [destruct c | destruct opt]; cbn; repeat split; congruence. Qed.
+
+Lemma fs_set_inv st d of :
+  fs_inv st -> fs_dir st = hfmt_of d ->
+  fs_inv (fs_set_format st of) /\ fs_dir (fs_set_format st of) = hfmt_of (fmt_step d of).
+Proof.
+  intros (H1 & H2 & H3) Hd. destruct of; cbn [fs_set_format fmt_step].
+  - repeat split; assumption.
+  - destruct (cfmt_eqb (fs_cfg st) CSha1) eqn:E.
+    + apply cfmt_eqb_eq in E. repeat split; try assumption. rewrite <- E. apply H3. congruence.
+    + cbn. repeat split; congruence.
+  - destruct (cfmt_eqb (fs_cfg st) CSha256) eqn:E.
+    + apply cfmt_eqb_eq in E. repeat split; try assumption. rewrite <- E. apply H3. congruence.
+    + cbn. repeat split; congruence.
+Qed.
+
+Lemma fs_fold_inv : forall ofs st d,
+  fs_inv st -> fs_dir st = hfmt_of d ->
+  fs_inv (fold_left fs_set_format ofs st) /\
+  fs_dir (fold_left fs_set_format ofs st) = hfmt_of (fold_left fmt_step ofs d).
+Proof.
+  induction ofs as [|of ofs IH]; intros st d Hi Hd; cbn [fold_left]; [now split|].
+  destruct (fs_set_inv st d of Hi Hd) as [Hi' Hd']. now apply IH.
+Qed.
+
+Lemma fs_run_format opt file ofs :
+  let st := fs_run opt file ofs in
+  fs_dir st = repo_format opt file ofs /\ fs_oh st = repo_format opt file ofs /\ fs_opts st = repo_format opt file ofs.
+Proof.
+  cbv zeta. unfold fs_run, repo_format, last_format.
+  destruct (fs_new_inv opt file) as [Hi Hd].
+  destruct (fs_fold_inv ofs _ _ Hi Hd) as [(H1 & H2 & _) Hf].
+  fold fmt_step. repeat split; congruence.
+Qed.
+
+Lemma ms_fold : forall ofs st,
+  ms_oh st = hfmt_of (ms_opts st) ->
+  ms_oh (fold_left ms_set_format ofs st) = hfmt_of (fold_left fmt_step ofs (ms_opts st)).
+Proof.
+  induction ofs as [|of ofs IH]; intros st Hs; cbn [fold_left]; [assumption|].
+  destruct of; cbn [ms_set_format fmt_step].
+  - now apply IH.
+  - destruct (cfmt_eqb (ms_opts st) CSha1) eqn:E.
+    + apply cfmt_eqb_eq in E. rewrite <- E. now apply IH.
+    + apply (IH (mkMS CSha1 (hfmt_of CSha1))). reflexivity.
+  - destruct (cfmt_eqb (ms_opts st) CSha256) eqn:E.
+    + apply cfmt_eqb_eq in E. rewrite <- E. now apply IH.
+    + apply (IH (mkMS CSha256 (hfmt_of CSha256))). reflexivity.
+Qed.
+
+Lemma ms_run_format opt ofs : ms_oh (ms_run opt ofs) = hfmt_of (last_format ofs opt).
+Proof. unfold ms_run, last_format. fold fmt_step. now rewrite ms_fold. Qed.
+
+Lemma thm_format_current opt file ofs t chunks :
+  type_git t = true -> int64_size (blen (concat chunks)) = true ->
+  let c := concat chunks in let size := blen c in
+  let st := fs_run opt file ofs in let f := repo_format opt file ofs in
+  st_raw st t size chunks = good_write f t c /\
+  st_set st (m_fill t size chunks) = Some (good_write f t c) /\
+  st_set st (m_fill TBlob size [c]) = Some (good_write f TBlob c) /\
+  st_mem (ms_run opt ofs) (m_fill t size chunks) = mkR (Some (git_oid (hfmt_of (last_format ofs opt)) t c)) None None.
+Proof.
+  intros Hg Hs c size st f.
+  destruct (fs_run_format opt file ofs) as (Hd & Ho & _). fold st f in Hd, Ho.
+  unfold st_raw, st_set, st_mem. rewrite Hd, Ho, ms_run_format.
+  repeat split.
+  - apply path_raw_good; [now apply type_git_valid | assumption].
+  - now apply path_set_good.
+  - pose proof (path_set_good f TBlob [c] eq_refl) as P. cbn [concat] in P.
+    rewrite app_nil_r in P. now apply P.
+  - now apply path_mem_good.
+Qed.
+
+(* a storage whose object hasher lags behind the other fields (what an
+   out-of-order SetObjectFormat would leave) is NOT harmless: the ID returned
+   by SetEncodedObject is not the name the file is stored under *)
+Lemma lagging_hasher :
+  let st := mkFS CSha256 FSha256 FSha1 FSha256 in
+  match st_set st (m_fill TBlob 1 [[97]]) with
+  | Some r => r_err r = None /\
+              r_id r = Some (git_oid FSha1 TBlob [97]) /\
+              r_file r = Some (git_oid FSha256 TBlob [97], git_loose TBlob [97])
+  | None => False
+  end.
+Proof. vm_compute. repeat split. Qed.
